@@ -8,6 +8,8 @@ is_good(phi) (requires len >= 1):  c0 <=> phi strictly increasing;  c1 <=> 0 <= 
 get_cycle_vector: with B = (0, wrap positions, N) and ACCEPT(k) <=> (not return_good or is_good(phi[B_k:B_k+1])) and
                   (no mask or mask true on the whole segment):  every sample of segment k carries
                   ACC(k) = #accepted segments before k  if ACCEPT(k)  else -1     (order-preserving renumbering).
+Cycles.__init__: the function handed to compute_cycle_metric for the metric 'is_good' is, on every segment, the criteria with the
+                  container's own edge tolerance; it is applied to the container's phase in 'cycle' mode and stored as int.
 """
 import numpy as np
 import z3
@@ -17,13 +19,13 @@ from pyvc.verify import Unit
 
 PROPERTY = 'C13'
 LEVEL = 'proof'
-FUNCTIONS = ['emd.cycles.is_good', 'emd.cycles.get_cycle_vector', 'emd.support.ensure_2d (inlined)', 'emd.support.ensure_equal_dims (inlined)']
+FUNCTIONS = ['emd.cycles.is_good', 'emd.cycles.get_cycle_vector', 'emd.cycles.Cycles.__init__', 'emd.support.ensure_2d (inlined)', 'emd.support.ensure_equal_dims (inlined)']
 ASSUMPTIONS = C12.ASSUMPTIONS[:3] + [
     'single column in the unbounded proof; mask is a boolean vector of the same layout',
     'is_good is replaced by its contract at the call site in get_cycle_vector (and verified against it separately)',
-    'the per-cycle quality flag kept by the Cycles container is covered by the bounded stand-in only',
+    'Cycles.__init__ unit: get_cycle_vector, ensure_vector, the slice caches and compute_cycle_metric are contract stubs; compute_cycle_metric(name, vals, func) is taken to apply func to the samples of each cycle (C14 contract of get_cycle_stat_from_samples; the slice-cache route is in the bounded stand-in); at least one cycle',
 ]
-NOT_COVERED = ["Cycles.metrics['is_good'] (container path through get_slice_stat_from_samples) in the unbounded proof: bounded stand-in only",
+NOT_COVERED = ["the route from compute_cycle_metric to the stored flag vector (get_slice_stat_from_samples / slice cache): bounded stand-in only",
                'waveform / control-point check (c3) and augmented mode: outside the property']
 
 N = z3.Int('N')
@@ -184,7 +186,82 @@ def units(tier):
                               {'kind': 'array', 'name': 'phase', 'shape': ['N']}, {'kind': 'array', 'name': 'mask', 'shape': ['N']}])
         u.bound_scalars = [('N', 1)]
         U.append(u)
+    U.append(container_unit())
     return U
+
+
+# ----------------------------------------------------------------------------- the container's flag (Cycles.__init__)
+
+class _Opaque:
+    def __init__(self, what):
+        self.what = what
+
+
+def _mk_container(c):
+    """Cycles.__init__ on a symbolic phase vector and a symbolic edge tolerance; every collaborator is a contract stub.
+    The object under construction is a bare instance whose compute_cycle_metric is the CONTRACT of that method for the call
+    the property speaks about: the function handed over for the metric 'is_good' must be the documented criteria with the
+    CONTAINER's edge tolerance, applied to the container's phase, in 'cycle' mode, stored as integers."""
+    ph, P = vec('phase', N)
+    for ax in npshim.pi_axioms():
+        c.assume(ax)
+    c.assume(N >= 1)
+    c.assume(EDGE > 0)
+    n = z3.Int('seg_n')
+    seg, S = vec('segment', n)
+    c.assume(n >= 1)
+    calls = []
+
+    class Container:
+        def compute_cycle_metric(self, name, vals, func, dtype=None, mode='cycle'):
+            calls.append(name)
+            if name != 'is_good':
+                return
+            c.oblige('container:is_good-metric-computed-from-the-containers-phase', SBool(z3.BoolVal(vals is self.phase)), 'post')
+            c.oblige('container:is_good-metric-in-cycle-mode-stored-as-int', SBool(z3.BoolVal(mode == 'cycle' and (dtype is int or dtype is verify.s_int))), 'post')
+            got = func(seg)
+            spec = good_spec(lambda i: seg.elem(i), z3.IntVal(0), n, EDGE)
+            c.oblige('container:flag-function-is-the-criteria-with-the-containers-edge', lift(got) == spec, 'post')
+
+        def compute_cycle_timings(self):
+            calls.append('timings')
+    me = Container()
+    c.ghost['calls'] = calls
+    c.ghost['me'] = me
+    use_cache = [True, False][c.choose(2, 'use_cache')]
+    return (me, ph), dict(phase_edge=SReal(EDGE), phase_step=SReal(STEP), use_cache=use_cache)
+
+
+def _post_container(c, a, kw, r):
+    me = c.ghost['me']
+    c.oblige('container:is_good-metric-is-computed', SBool(z3.BoolVal('is_good' in c.ghost['calls'])), 'post')
+    c.oblige('container:keeps-its-edge', lift(me.phase_edge) == EDGE, 'post')
+
+
+def _container_ns():
+    def gcv_stub(phase, return_good=True, mask=None, imf=None, phase_step=None, phase_edge=None):
+        # contract of get_cycle_vector as far as __init__ needs it: an (N, 1) integer label vector with labels >= -1
+        lab, L = vec('labels', N, 'i')
+        q = z3.Int('lq')
+        core.C().assume(z3.ForAll([q], L(q) >= -1, patterns=[L(q)]))
+        core.C().assume(L(0) >= 0)      # unit precondition: at least one cycle (a container without cycles has no flags; its log line divides numpy scalars by zero, which the engine would take for an exception)
+        return core.SArr((N, z3.IntVal(1)), lambda i, j: L(i), 'i')
+    cs = type('cs', (), {'make_slice_cache': staticmethod(lambda cv: _Opaque('slice_cache')),
+                         'make_aug_slice_cache': staticmethod(lambda sc, ph: _Opaque('aug_slice_cache'))})
+    return {'is_good': is_good_default_stub, 'get_cycle_vector': gcv_stub, 'ensure_vector': lambda xs, names, fn: xs[0], '_cycles_support': cs}
+
+
+def is_good_default_stub(phase, waveform=None, ret_all_checks=False, phase_edge=None, mode='cycle'):
+    """is_good by its contract, with the REAL default of phase_edge read from the source"""
+    if phase_edge is None:
+        import emd.cycles as EC
+        phase_edge = real_defaults('emd/cycles.py', 'is_good', EC)['phase_edge']
+    return is_good_stub(phase, waveform=waveform, ret_all_checks=ret_all_checks, phase_edge=phase_edge, mode=mode)
+
+
+def container_unit():
+    import emd.cycles as EC
+    return Unit('Cycles.__init__[is_good flag]', 'emd/cycles.py', 'Cycles.__init__', _mk_container, _post_container, module=EC, ns=_container_ns())
 
 
 def model_witness(unit_name, model):
@@ -278,7 +355,7 @@ def refute(tier, seed, emit):
     step = 1.5 * np.pi
     # alphabet with values inside both edge tolerances
     alpha = [0.1, 1.6, 3.1, 4.7, 6.2]
-    edges = [np.pi / 12, np.pi / 2] if tier == 'quick' else [0.05, np.pi / 12, np.pi / 4, np.pi / 2]
+    edges = [0.05, np.pi / 12, np.pi / 2] if tier == 'quick' else [0.05, np.pi / 12, np.pi / 4, np.pi / 2]
     emit.scope('every phase sequence of length 1..%d over %s x phase_edge in %s x masks {none, every single-False mask, block} x return_good {True, False}: labels compared with the criteria; container flag compared for cache on/off; non-trivial = at least one wrap' % (maxlen, alpha, [round(e, 3) for e in edges]), exhaustive=True)
     for t in seqs(alpha, maxlen):
         ph = np.array(t)
